@@ -192,9 +192,16 @@ func program(ctx context.Context, db *sql.DB, sc scenario) (outs []outcome) {
 	var e execer = db
 	for _, k := range sc.Prog {
 		switch k {
-		case "begin":
+		case "begin", "beginro", "beginser":
 			var err error
-			tx, err = db.BeginTx(ctx, nil)
+			var opts *sql.TxOptions
+			switch k {
+			case "beginro":
+				opts = &sql.TxOptions{ReadOnly: true}
+			case "beginser":
+				opts = &sql.TxOptions{Isolation: sql.LevelSerializable}
+			}
+			tx, err = db.BeginTx(ctx, opts)
 			if err != nil {
 				outs = append(outs, outcome{"", "begin-" + errClass(err)})
 				tx = nil
@@ -343,8 +350,8 @@ func main() {
 				b = outsB[k]
 			}
 			switch kind {
-			case "begin":
-				t.Add("Begin", "sameErr", p.err == b.err, "sig", sig)
+			case "begin", "beginro", "beginser":
+				t.Add("Begin", "opt", kind, "sameErr", p.err == b.err, "sig", sig)
 				intxStep = true
 			case "commit", "rollback":
 				t.Add("EndTx", "how", kind, "sameErr", p.err == b.err, "sig", sig+":perr="+p.err+":berr="+b.err)
@@ -371,8 +378,9 @@ func main() {
 		appInOrder := true
 		used := make([]bool, len(jp))
 		for _, b := range jb {
-			if b.Class == "begin" || b.Class == "commit" || b.Class == "rollback" {
-				continue
+			plainBegin := b.Class == "begin" && (strings.EqualFold(b.SQL, "START TRANSACTION") || strings.EqualFold(b.SQL, "BEGIN"))
+			if plainBegin || b.Class == "commit" || b.Class == "rollback" {
+				continue // transaction control is the proxy's to place; options asked for by the application are not
 			}
 			found := false
 			for pos < len(jp) {
